@@ -24,6 +24,8 @@ func (r satResult) String() string {
 }
 
 type Solver struct {
+	lines   chan string // solver output, "\x00EOF" on end of stream
+	restarts int
 	kind    string
 	idx     uint32 // bit in Term.defined
 	cmd     *exec.Cmd
@@ -38,13 +40,25 @@ type Solver struct {
 	log     *os.File
 	buf     strings.Builder
 	timeout int // ms
+	timeouts int // queries ended by the watchdog
 }
 
 var solverCount uint32
 
 func newSolver(kind string, timeoutMs int) (*Solver, error) {
+	s := &Solver{kind: kind, idx: 1 << solverCount, timeout: timeoutMs}
+	solverCount++
+	if err := s.start(); err != nil {
+		return nil, err
+	}
+	return s, nil
+}
+
+// start launches the solver process (also used to restart a wedged one).
+func (s *Solver) start() error {
 	var cmd *exec.Cmd
-	switch kind {
+	timeoutMs := s.timeout
+	switch s.kind {
 	case "z3":
 		cmd = exec.Command("z3", "-in")
 	case "z3new":
@@ -54,34 +68,68 @@ func newSolver(kind string, timeoutMs int) (*Solver, error) {
 	case "cvc5int":
 		cmd = exec.Command("cvc5", "--incremental", "--produce-models", "--solve-bv-as-int=sum", "--tlimit-per="+strconv.Itoa(timeoutMs))
 	default:
-		return nil, fmt.Errorf("unknown solver %q", kind)
+		return fmt.Errorf("unknown solver %q", s.kind)
 	}
 	in, err := cmd.StdinPipe()
 	if err != nil {
-		return nil, err
+		return err
 	}
 	outp, err := cmd.StdoutPipe()
 	if err != nil {
-		return nil, err
+		return err
 	}
 	cmd.Stderr = cmd.Stdout
 	if err := cmd.Start(); err != nil {
-		return nil, err
+		return err
 	}
-	s := &Solver{kind: kind, idx: 1 << solverCount, cmd: cmd, in: in, out: bufio.NewReaderSize(outp, 1<<16), timeout: timeoutMs}
-	solverCount++
-	if p := os.Getenv("GOSYM_SMTLOG"); p != "" {
-		s.log, _ = os.Create(fmt.Sprintf("%s.%s.%d.smt2", p, kind, solverCount))
+	s.cmd, s.in = cmd, in
+	s.out = bufio.NewReaderSize(outp, 1<<16)
+	lines := make(chan string, 1024)
+	s.lines = lines
+	rd := s.out
+	go func() {
+		for {
+			line, err := rd.ReadString('\n')
+			if err != nil {
+				lines <- "\x00EOF"
+				close(lines)
+				return
+			}
+			lines <- line
+		}
+	}()
+	s.buf.Reset()
+	s.stack = nil
+	s.nUF = 0
+	if p := os.Getenv("GOSYM_SMTLOG"); p != "" && s.log == nil {
+		s.log, _ = os.Create(fmt.Sprintf("%s.%s.%d.smt2", p, s.kind, solverCount))
 	}
 	s.send("(set-option :global-declarations true)")
 	s.send("(set-option :produce-models true)")
-	if strings.HasPrefix(kind, "cvc5") {
+	if strings.HasPrefix(s.kind, "cvc5") {
 		s.send("(set-logic ALL)")
 	} else {
 		s.send(fmt.Sprintf("(set-option :timeout %d)", timeoutMs))
 	}
 	s.sync()
-	return s, nil
+	return nil
+}
+
+// restart kills a solver that did not answer within its time limit (z3's own
+// :timeout is not always honoured) and starts a fresh one; every term must be
+// defined again.
+func (s *Solver) restart() {
+	if s.cmd != nil && s.cmd.Process != nil {
+		s.cmd.Process.Kill()
+		go s.cmd.Wait()
+	}
+	s.restarts++
+	for _, t := range tt.all {
+		t.defined &^= s.idx
+	}
+	if err := s.start(); err != nil {
+		s.errs = append(s.errs, "solver restart failed: "+err.Error())
+	}
 }
 
 func (s *Solver) close() {
@@ -115,15 +163,26 @@ func (s *Solver) flush() {
 	s.buf.Reset()
 }
 
-// sync flushes pending commands and reads all output up to a marker.
+// sync flushes pending commands and reads all output up to a marker.  A
+// solver that stays silent for its time limit plus a grace period is killed
+// and restarted; the pending query is answered "unknown".
 func (s *Solver) sync() []string {
 	s.send(`(echo "@@DONE@@")`)
 	s.flush()
 	var lines []string
+	deadline := time.NewTimer(time.Duration(s.timeout)*time.Millisecond + 20*time.Second)
+	defer deadline.Stop()
 	for {
-		line, err := s.out.ReadString('\n')
-		if err != nil {
-			s.errs = append(s.errs, "solver died: "+err.Error())
+		var line string
+		select {
+		case line = <-s.lines:
+		case <-deadline.C:
+			s.timeouts++
+			s.restart()
+			return append(lines, "timeout")
+		}
+		if line == "\x00EOF" || line == "" && s.lines == nil {
+			s.errs = append(s.errs, "solver died")
 			lines = append(lines, "(error \"solver died\")")
 			return lines
 		}
@@ -225,7 +284,11 @@ func (s *Solver) check(pc []*Term, extra *Term, wantModel bool) (satResult, map[
 	}
 	s.send("(check-sat)")
 	nerr := len(s.errs)
+	r0 := s.restarts
 	lines := s.sync()
+	if s.restarts != r0 {
+		return rUnknown, nil // watchdog fired: fresh solver, empty stack
+	}
 	res := rUnknown
 	for _, l := range lines {
 		switch l {
@@ -243,6 +306,9 @@ func (s *Solver) check(pc []*Term, extra *Term, wantModel bool) (satResult, map[
 		model = s.getModel()
 		if model == nil {
 			res = rUnknown
+		}
+		if s.restarts != r0 {
+			return rUnknown, nil
 		}
 	}
 	if extra != nil {
